@@ -60,7 +60,10 @@ def one_case(terms: dict, h: str, mode: str, grp: t.Optional[tuple], l2: bytes, 
             priv = ev.priv_from_seed(h, l2, "DH", 64)
             y_dc = pow(gg, int.from_bytes(priv, "big"), p)
             pub_struct = refdc.ffc_dh_key(kl, p, gg, y_dc)
-            seed, pub = _envs(h, "DH", l2, pub_struct, priv_bits, kl * 8, refdc.ffc_dh_parameters(kl, p, gg))
+            # the root key's msKds-PublicKeyLength attribute is not an input of the construction: the KEK must not depend on
+            # whether it equals 8 * key_length of the key blobs (padded key_length), the size of p, or Windows' 2048
+            pub_bits = (kl * 8, p.bit_length(), 2048, kl * 8 + 32)[rid % 4]
+            seed, pub = _envs(h, "DH", l2, pub_struct, priv_bits, pub_bits, refdc.ffc_dh_parameters(kl, p, gg))
         else:
             curve = mode.split("_")[1]
             c = ev.CURVES[curve]
